@@ -469,6 +469,17 @@ func runC11(tier string, seed uint64) int {
 					}
 				}
 			}
+			// a project with a crop code of its own reads its parameter file from the folder named on its batch line
+			srcParam := ""
+			for k := range scs {
+				if scs[k] == src {
+					for _, t := range valid[k].Tokens {
+						if strings.HasPrefix(t, "parameter=") {
+							srcParam = t
+						}
+					}
+				}
+			}
 			base := cloneScenario(src)
 			base.Project = fmt.Sprintf("f%02d_%d", ci, sh)
 			base.Weather.Folder = fmt.Sprintf("wf%02d_%d", ci, sh)
@@ -481,10 +492,15 @@ func runC11(tier string, seed uint64) int {
 				continue
 			}
 			var toks []string
+			hasParam := false
 			for _, a := range args {
 				if !strings.HasPrefix(a, "resultfolder=") {
 					toks = append(toks, a)
 				}
+				hasParam = hasParam || strings.HasPrefix(a, "parameter=")
+			}
+			if srcParam != "" && !hasParam {
+				toks = append(toks, srcParam)
 			}
 			bl := batchLine{ID: fmt.Sprintf("F%02ds%d", ci, sh), Project: base.Project, Tokens: toks, Fail: class, ErrLike: like, DupOf: -1}
 			if sh == 0 {
